@@ -112,7 +112,7 @@ func RunParse(t *testing.T, c *Case, s Sched, keepLog bool) *Obs {
 				}
 				sim.Yield(gosim.PCallerMark)
 			}
-			cmds, comments, err := parser.ParseCommands(env, "sim", src)
+			cmds, comments, err := parser.ParseCommands(env, c.srcName(), src)
 			live.Cmds = append(live.Cmds, cmds)
 			live.Comments = append(live.Comments, comments)
 			live.Errs = append(live.Errs, err)
@@ -127,7 +127,7 @@ func RunParse(t *testing.T, c *Case, s Sched, keepLog bool) *Obs {
 			// an unrelated call by the same caller afterwards, from a plain io.Reader: whatever the library keeps
 			// between calls, the first call's source must not be touched by it
 			sim.Yield(gosim.PCallerMark)
-			parser.ParseCommands(nil, "bystander", plainReader{strings.NewReader("zz <<E | $(y)\nb\nE\n")})
+			parser.ParseCommands(nil, "bystander", &plainReader{strings.NewReader("zz <<E | $(y)\nb\nE\n")})
 		}
 	}
 	o.Res = gosim.RunInBubble(t, sim, body)
@@ -218,7 +218,7 @@ func PlainParseDump(c *Case) string {
 	default:
 		src = gosim.NewSimReader(nil, c.Src, c.Reader)
 	}
-	cmds, comments, err := parser.ParseCommands(env, "sim", src)
+	cmds, comments, err := parser.ParseCommands(env, c.srcName(), src)
 	return fmt.Sprintf("cmds=%s\ncomments=%s\n%s", Dump(cmds, 0), Dump(comments, 0), DumpErr(err))
 }
 
@@ -252,7 +252,7 @@ func RunParse2(t *testing.T, c *Case, s Sched, keepLog bool) *Obs {
 // plainReader hides every method but Read.
 type plainReader struct{ r io.Reader }
 
-func (p plainReader) Read(b []byte) (int, error) { return p.r.Read(b) }
+func (p *plainReader) Read(b []byte) (int, error) { return p.r.Read(b) }
 
 // SoloDump is what RunParse2 must produce for one of its callers: the same call made alone.
 func SoloDump(src string) string {
